@@ -14,8 +14,8 @@
 From Coq Require Import ZArith List Bool String Arith Permutation FloatOps SpecFloat.
 From Coq Require PrimFloat.   (* not imported: Print Assumptions then prints the primitives qualified *)
 From PF Require Import Lib.ListX Lib.PySlice Lib.FloatInt Gen.Tables.
-From PF Require Import Model.Dataset Model.DatasetSpec Model.DatasetRun Model.DatasetHeap Model.Split Legacy.DatasetLegacy.
-From PF Require Import Proofs.FloatIntFacts Proofs.DatasetProofs Proofs.DatasetHeapProofs Proofs.SplitProofs.
+From PF Require Import Model.Dataset Model.DatasetSpec Model.DatasetRun Model.DatasetHeap Model.Split Model.NpShuffle Legacy.DatasetLegacy.
+From PF Require Import Proofs.FloatIntFacts Proofs.DatasetProofs Proofs.DatasetHeapProofs Proofs.SplitProofs Proofs.NpShuffleProofs.
 Import ListNotations.
 Local Notation length := List.length (only parsing).
 
@@ -422,6 +422,63 @@ Print Assumptions split_accepts_valid_ratios.
 Print Assumptions split_counts_labels_length.
 Print Assumptions split_arrangement_defined.
 
+(* ------------------------------------------------------------------ *)
+(* 5b. H_shuffle_perm proved: numpy's shuffle as an algorithm            *)
+
+(* Model/NpShuffle.v is np.random.shuffle as numpy's legacy generator runs it
+   after np.random.seed(seed): the Fisher-Yates loop `for i in reversed(range(1,
+   n)): j = random_interval(i); swap x[i], x[j]` with random_interval's mask and
+   rejection rule, over the raw next_uint32() word stream (the only black box
+   left).  The correspondence recomputes generate_random_split's output from
+   the word stream on every run (split_case_fy). *)
+
+(* the shuffle returns a permutation of its argument - for EVERY word stream,
+   i.e. whatever the generator draws *)
+Theorem np_shuffle_is_a_permutation : forall (A : Type) (stream : list Z) (l r : list A),
+  np_shuffle stream l = Some r -> Permutation r l.
+Proof. exact (@np_shuffle_perm). Qed.
+Print Assumptions np_shuffle_is_a_permutation.
+
+(* the arrangement is a function of the word stream (i.e. of the seed) and the
+   LENGTH only, not of the values: shuffling x is gathering x by the shuffle of
+   arange(len(x)) *)
+Theorem np_shuffle_arrangement_ignores_values : forall (A : Type) (stream : list Z) (l : list A),
+  np_shuffle stream l = (p <- np_shuffle stream (seq 0 (length l)) ;; tgather l p).
+Proof. exact (@np_shuffle_by_positions). Qed.
+Print Assumptions np_shuffle_arrangement_ignores_values.
+
+(* random_interval(max) draws within [.., max] *)
+Theorem random_interval_in_range : forall mx stream v r, (0 <= mx)%Z ->
+  random_interval mx stream = Some (v, r) -> (v <= mx)%Z.
+Proof. exact random_interval_range. Qed.
+Print Assumptions random_interval_in_range.
+
+(* hence the hypothesis of section SplitGenerator holds of the modelled numpy,
+   for every word stream, seed and length ... *)
+Theorem H_shuffle_perm_proved : forall (mt : Z -> list Z) (seed : Z) (n : nat),
+  Permutation (np_perm_fy mt seed n) (seq 0 n).
+Proof. exact np_perm_fy_perm. Qed.
+Print Assumptions H_shuffle_perm_proved.
+
+(* ... the split generator's counts / labels / length theorem needs no
+   hypothesis any more ... *)
+Theorem split_counts_labels_length_unconditional : forall (mt : Z -> list Z) seed n a b c (arr : list Z),
+  a + b + c = n -> apply_perm (np_perm_fy mt seed n) (blocks a b c) = Some arr ->
+  length arr = n /\
+  Forall (fun x => x = 0 \/ x = 1 \/ x = 2)%Z arr /\
+  count_occ Z.eq_dec arr 0%Z = a /\ count_occ Z.eq_dec arr 1%Z = b /\ count_occ Z.eq_dec arr 2%Z = c /\
+  Permutation arr (blocks a b c).
+Proof. exact (fun mt => split_counts_labels_length (np_perm_fy mt) (np_perm_fy_perm mt)). Qed.
+Print Assumptions split_counts_labels_length_unconditional.
+
+(* ... and the gather the Split model applies is the code's in-place
+   `np.random.shuffle(arr)` of the block array *)
+Theorem split_generator_shuffles_blocks_in_place : forall (mt : Z -> list Z) seed (arr : list Z),
+  np_shuffle (mt seed) (seq 0 (length arr)) <> None ->
+  apply_perm (np_perm_fy mt seed (length arr)) arr = np_shuffle (mt seed) arr.
+Proof. exact apply_perm_is_np_shuffle. Qed.
+Print Assumptions split_generator_shuffles_blocks_in_place.
+
 (* ================================================================== *)
 (* Examples: the hypotheses are satisfiable on concrete non-trivial states *)
 
@@ -492,3 +549,11 @@ Example ex_heap_aliasing :
      [HOp 0 (OColSelect ["rid"]%string) InPlace; HOp 1 OMaterialize InPlace; HOp 0 OMaterialize Rebind]))
   = [[None; None]; [None; Some ["rid"; "y"]%string]; [Some ["rid"; "f2"; "y"]%string; Some ["rid"; "y"]%string]].
 Proof. vm_compute. split; reflexivity. Qed.
+
+(* numpy's shuffle on a concrete word stream: masks 3, 3, 1; draws j = 2 at i = 3,
+   the word 7 rejected at i = 2 (7 land 3 = 3 > 2) then j = 1, and j = 0 at i = 1 *)
+Example ex_np_shuffle :
+  np_shuffle [6; 7; 5; 2]%Z [10; 11; 12; 13]%Z = Some [13; 10; 11; 12]%Z /\
+  np_perm_fy (fun _ => [6; 7; 5; 2]%Z) 0 4 = [3; 0; 1; 2] /\
+  np_shuffle [6; 7]%Z [10; 11; 12; 13]%Z = None.
+Proof. vm_compute. repeat split. Qed.
